@@ -87,7 +87,7 @@ def make_config(spec):
     moves = spec.get("moves") or ["sh"] * n
     tis = {"maxlength": spec.get("maxlength", 2000),
            "allowmaxlength": bool(spec.get("allowmaxlength", False)),
-           "zero_momentum": False,
+           "zero_momentum": bool(spec.get("zero_momentum", False)),
            "n_jumps": spec.get("n_jumps", 2)}
     if spec.get("cap") is not None:
         tis["interface_cap"] = spec["cap"] + sh
